@@ -43,9 +43,12 @@ type Input struct {
 	Restart int        `json:"restart"` // the syncing node closes and reopens its ledger before this block index (0 = never)
 	// the syncing node is restarted as a NEW PROCESS before this block index (0 = never): blocks
 	// before it are added by one process, the rest by another one opening the same data directory
-	ProcRestart int      `json:"proc_restart"`
-	Track       []string `json:"track"`  // addresses (hex) whose ONT/ONG balances are compared
-	Repeat      int      `json:"repeat"` // ExecuteBlock repetitions on the member (map-order shaking)
+	ProcRestart int `json:"proc_restart"`
+	// PreExec[i]: transactions (wire bytes) the MEMBER pre-executes (RPC-style, nothing committed) right
+	// before it executes block i; the syncing node serves none. Pre-execution must not influence blocks.
+	PreExec [][]string `json:"pre_exec,omitempty"`
+	Track   []string   `json:"track"`  // addresses (hex) whose ONT/ONG balances are compared
+	Repeat  int        `json:"repeat"` // ExecuteBlock repetitions on the member (map-order shaking)
 }
 
 var schemes = []string{"SHA256withECDSA", "SHA224withECDSA", "SHA384withECDSA", "SHA512withECDSA",
